@@ -397,6 +397,18 @@ func runCase(cs *caseSpec, dir string, tbl *ref.Table) (r result) {
 		}
 		return v
 	})
+	// windows are flushed to the table file in blocks (256 MiB in production): with the block size lowered every
+	// multi-record window of these small tables is flushed in several blocks too
+	if cs.Idx%2 == 0 {
+		blk := uint64(64 << uint(cs.Idx%5)) // 64 .. 1024 bytes
+		verifhook.SetSize("plot.writeblock", func(v uint64) uint64 {
+			if blk < v {
+				return blk
+			}
+			return v
+		})
+		seen["small-write-blocks"] = 1
+	}
 	rec := func(name string, f func(args []interface{})) {
 		verifhook.SetPoint(name, func(args ...interface{}) {
 			mu.Lock()
